@@ -220,6 +220,9 @@ Local Open Scope Q_scope.
 """
 
 
+_BUILT = set()
+
+
 def _shards(cases, max_cases, max_bytes):
     """balanced shards: longest-processing-time assignment with cost ~ size^1.5 (models are up to quadratic in the
     series length), bounded by max_cases / max_bytes per shard"""
@@ -243,6 +246,11 @@ def _shards(cases, max_cases, max_bytes):
 def run_cases(pid, module, checker, cases, max_cases=400, max_bytes=600_000, timeout=900, extra_imports=''):
     """write sharded cases files, run coqc in parallel, return (failing_indices, errors)"""
     os.makedirs(RUN, exist_ok=True)
+    if module not in _BUILT:
+        ok, log = make([module.replace('.', '/') + '.vo'])
+        if not ok:
+            return [], ['checker module %s does not build: %s' % (module, log[-1500:])]
+        _BUILT.add(module)
     for fn in os.listdir(RUN):
         if fn.startswith('%s_' % pid) or fn.startswith('.%s_' % pid):
             try:
